@@ -31,3 +31,5 @@ def check(ctx):
     ctx.floor("ROLE-sv", 10)
     ctx.floor("UNITS-sv", 2)
     ctx.floor("HERM", 1)
+    from ..rules import observables
+    observables.hamiltonian_structure(ctx)
